@@ -1,7 +1,11 @@
 (* C12 - a mapping lives exactly as long as something can still reach it.
    Statements only; proofs in Proofs/C12.v.  The machine (Impl/Owner.v) executes ANY list of
    operations create (anonymous / file / raw) / build map / insert / remove / clone / snapshot / drop of
-   any handle in any order ([run l]; an operation on a handle that does not exist does nothing).
+   any handle in any order ([run l]; an operation on a handle that does not exist does nothing) - and, since the
+   refusal round, also REFUSED creations (CreateRefused: refused before the mmap, or an MmapRegion built and then
+   consumed by a failing GuestRegionMmap::new) and the calls that CONSUME their arguments (BuildMove = from_regions /
+   from_arc_regions over the handles themselves, InsertMove = insert_region of the handle's own Arc), each of which may
+   fail.  Every theorem below quantifies over ALL such histories [l : list op].
    [reaches s r]: some live handle (region Arc, map value, snapshot Arc) can reach region r.
    PARTIAL (see manifest level_note): the borrow-checker half of the property (an accessor cannot
    outlive its parent) and the kernel's munmap are not modelled. *)
@@ -52,8 +56,69 @@ Proof. exact no_leak_lemma. Qed.
    region table, and handle by handle the same regions up to permutation (insert_region sorts its
    vector, the checker keeps insertion order; remove_region removes by index, the checker the first
    occurrence); snapshots through the machine's Arc table.  No side condition on the history. *)
-Theorem C12_model_ok : forall ops, ok_C12 ops (run_C12 ops) = true.
+Theorem C12_model_ok_base : forall ops, ok_C12 ops (run_C12 ops) = true.
 Proof. exact C12_model_ok_lemma. Qed.
+
+(* ... and the same over the EXTENDED wire operations (ok_C12r is the checker of suite C12: refused creations must leave
+   no stray mapping and no handle, a consumed handle is gone whether the call answered Ok or Err, and after every
+   operation the set of mapped regions is exactly the raw ones plus those some live handle reaches) *)
+Theorem C12_model_ok : forall ops, ok_C12r ops (run_C12r ops) = true.
+Proof. exact C12r_model_ok_lemma. Qed.
+
+(* ---------------------------------------------------------------- refused operations
+   [snd (exec o s) = Failed]: the library returned Err.  [consumed o]: the handles the call takes by value.
+   [consumed_reaches s o r]: region r is reachable from one of them.  [run (l ++ [o]) = fst (exec o (run l))]. *)
+Theorem C12_run_snoc : forall l o, run (l ++ [o]) = fst (exec o (run l)).
+Proof. exact run_snoc. Qed.
+
+(* a refused operation - from_arc_regions / from_regions / insert_region answering Err (overlap, unsorted, empty),
+   remove_region answering Err, a refused creation - leaves all snapshots and all handles it did not consume as they
+   were, takes the handles it consumed away, and leaves the record of EVERY region that no consumed argument reaches
+   exactly as it was: same mapping state, same munmap count, same strong count (the clones it made on the way are
+   dropped again) *)
+Theorem C12_refused_unchanged : forall l o, snd (exec o (run l)) = Failed ->
+  snaps (fst (exec o (run l))) = snaps (run l) /\
+  (forall i, ~ In i (consumed o) -> nth_error (handles (fst (exec o (run l)))) i = nth_error (handles (run l)) i) /\
+  (forall i, In i (consumed o) -> get_handle (fst (exec o (run l))) i = None) /\
+  (forall r, r < nreg (run l) -> ~ consumed_reaches (run l) o r -> reg (fst (exec o (run l))) r = reg (run l) r).
+Proof. exact refused_unchanged_lemma. Qed.
+
+(* ... and the regions a consumed argument DID reach obey the general law in the state after the call (instance of
+   C12_live_iff_owner / C12_unmapped_once at l ++ [o]): still mapped iff another owner is left, else unmapped exactly once *)
+Theorem C12_refused_consumed : forall l o r, r < nreg (run (l ++ [o])) -> r_kind (reg (run (l ++ [o])) r) <> 2 ->
+  (r_live (reg (run (l ++ [o])) r) = true <-> reaches (run (l ++ [o])) r) /\
+  (r_unmaps (reg (run (l ++ [o])) r) <= 1)%nat /\
+  (r_unmaps (reg (run (l ++ [o])) r) = 1%nat <-> ~ reaches (run (l ++ [o])) r).
+Proof. exact refused_consumed_lemma. Qed.
+
+(* a refused creation yields no handle and touches nothing that existed; refused before the mmap (v < 6) it changes
+   nothing at all; an MmapRegion consumed by the failing GuestRegionMmap::new (v = 6, 7, 8: anonymous, file, raw)
+   is unreachable afterwards and was unmapped exactly once - unless it wraps an external mapping, which is left alone *)
+Theorem C12_refused_create : forall l v slot,
+  let s := run l in let s' := fst (exec (CreateRefused v slot) s) in
+  snd (exec (CreateRefused v slot) s) = Failed /\ handles s' = handles s /\ snaps s' = snaps s /\
+  (forall r, r < nreg s -> reg s' r = reg s r) /\
+  (v < 6 -> s' = s) /\
+  (6 <= v -> nreg s' = nreg s + 1 /\ ~ reaches s' (nreg s) /\
+     let x := reg s' (nreg s) in
+     r_kind x = (v - 6) mod 3 /\ r_strong x = O /\
+     (r_kind x <> 2 -> r_live x = false /\ r_unmaps x = 1%nat) /\
+     (r_kind x = 2 -> r_live x = true /\ r_unmaps x = O)).
+Proof. exact refused_create_lemma. Qed.
+
+(* ---------------------------------------------------------------- locality ("unmapped exactly once, NOTHING ELSE touched")
+   [args o]: the handles operation o is given.  An operation changes only the records of regions reachable from
+   them; every other region keeps its mapping state, its munmap count and its strong count.  The munmap a Drop
+   issues is `munmap(self.addr, self.size)` of the region's OWN mapping (drop_region: no input but the region's
+   record - not the file offset, the flags or the caller's hugetlbfs hint), so it cannot reach a neighbour *)
+Theorem C12_op_local : forall l o r, r < nreg (run l) -> ~ args_reach (run l) o r ->
+  reg (run (l ++ [o])) r = reg (run l) r.
+Proof. exact op_local_lemma. Qed.
+
+Theorem C12_drop_local : forall l h r, r < nreg (run l) ->
+  (forall hd, get_handle (run l) h = Some hd -> ~ In r (reach_list (run l) hd)) ->
+  reg (run (l ++ [DropH h])) r = reg (run l) r.
+Proof. exact drop_local_lemma. Qed.
 
 (* (kept; subsumed by C12_model_ok) the [live] component of every observation the machine produces is
    the one the checker demands, with "reachable" read through [owners] (C12_owners_pos_iff_reaches) *)
@@ -79,6 +144,26 @@ Proof.
   exists 5%nat, (HSnap 0). split; vm_compute; [reflexivity|left; reflexivity].
 Qed.
 
+(* non-vacuity with refusals: a file region and an anonymous region in the SAME guest slot; from_regions over both
+   handles answers Err (overlap) and has consumed both: both mappings are gone, exactly one munmap each; a file
+   MmapRegion consumed by a failing GuestRegionMmap::new is gone too; an insert_region that fails while a map still
+   holds the region leaves it mapped; at quiescence nothing is left *)
+Example C12_refusals_nonvacuous :
+  let l1 := [Create 1 1; Create 0 1; BuildMove true [0%nat; 1%nat]; CreateRefused 7 3; CreateRefused 0 4] in
+  snd (exec (BuildMove true [0%nat; 1%nat]) (run [Create 1 1; Create 0 1])) = Failed /\
+  r_live (reg (run l1) 0) = false /\ r_unmaps (reg (run l1) 0) = 1%nat /\
+  r_live (reg (run l1) 1) = false /\ r_unmaps (reg (run l1) 1) = 1%nat /\
+  nreg (run l1) = 3 /\ r_live (reg (run l1) 2) = false /\ r_unmaps (reg (run l1) 2) = 1%nat /\ quiescent (run l1) /\
+  (let l2 := [Create 1 1; Build [0%nat]; CloneH 0; InsertMove 1 2] in
+   snd (exec (InsertMove 1 2) (run [Create 1 1; Build [0%nat]; CloneH 0])) = Failed /\
+   get_handle (run l2) 2 = None /\ r_live (reg (run l2) 0) = true /\ r_strong (reg (run l2) 0) = 2%nat) /\
+  ok_C12r [WB (WCreate 1 1); WB (WCreate 0 1); WBuildMove true [0%nat; 1%nat]; WCreateRefused 7 3; WInsertMove 5 6]
+          (run_C12r [WB (WCreate 1 1); WB (WCreate 0 1); WBuildMove true [0%nat; 1%nat]; WCreateRefused 7 3; WInsertMove 5 6]) = true.
+Proof.
+  cbv zeta. repeat match goal with |- _ /\ _ => split end; try (vm_compute; reflexivity).
+  intros i h H. vm_compute in H. destruct i as [|[|[|i]]]; discriminate.
+Qed.
+
 Print Assumptions C12_strong_counts.
 Print Assumptions C12_owners_pos_iff_reaches.
 Print Assumptions C12_live_iff_owner.
@@ -86,8 +171,16 @@ Print Assumptions C12_no_dangling.
 Print Assumptions C12_unmapped_once.
 Print Assumptions C12_raw_never_unmapped.
 Print Assumptions C12_no_leak.
+Print Assumptions C12_model_ok_base.
 Print Assumptions C12_model_ok.
+Print Assumptions C12_run_snoc.
+Print Assumptions C12_refused_unchanged.
+Print Assumptions C12_refused_consumed.
+Print Assumptions C12_refused_create.
+Print Assumptions C12_op_local.
+Print Assumptions C12_drop_local.
 Print Assumptions C12_model_live_partial.
+Print Assumptions C12_refusals_nonvacuous.
 
 (* ------------------------------------------------------------------------------------------------------------
    Xen flavour (feature `xen`).  Machine: Impl/OwnerXen.v ([yrun m l], same Arc / Vec / snapshot operations as above
